@@ -1,7 +1,8 @@
 """C10 — see DESIGN.md §6 and harness/handler_props.py (plan) / oracles.py (oracle)."""
 import handler_props as hp
+from prop_meta import META_ALL
 
-LEVEL = hp_level = None
+META = META_ALL["C10"]
 
 
 def run(ctx):
@@ -10,7 +11,3 @@ def run(ctx):
 
 def replay(ctx, path):
     return hp.replay(ctx, "C10", path)
-
-
-from prop_meta import META_ALL  # noqa: E402
-META = META_ALL["C10"]
